@@ -1,6 +1,7 @@
 package main
 
 import (
+	"os"
 	"fmt"
 	"go/token"
 	"go/types"
@@ -258,6 +259,9 @@ func (st *State) callValue(fr *Frame, in ssa.Instruction, call *ssa.CallCommon, 
 func (st *State) staticCall(fr *Frame, in ssa.Instruction, fn *ssa.Function, bindings, args []Val, pos token.Pos, isDefer bool) bool {
 	e := st.e
 	name := fn.RelString(e.P.TPkg)
+	if os.Getenv("GOVC_CALLS") != "" {
+		fmt.Fprintf(os.Stderr, "call %s origin=%v blocks=%d synthetic=%q\n", fn.String(), fn.Origin() != nil, len(fn.Blocks), fn.Synthetic)
+	}
 	if fn.Origin() != nil {
 		// instantiation of a generic function: use the generic body
 		name = fn.Origin().RelString(e.P.TPkg)
@@ -287,8 +291,16 @@ func (st *State) staticCall(fr *Frame, in ssa.Instruction, fn *ssa.Function, bin
 	}
 	if isPkgFunc(e.P, fn) {
 		target := fn
-		if fn.Origin() != nil && len(fn.Blocks) == 0 {
+		if fn.Origin() != nil && (len(fn.Blocks) == 0 || strings.HasPrefix(fn.Synthetic, "instantiation wrapper")) {
+			// an instantiation: the generic body (and its contract) stands for every instance
 			target = fn.Origin()
+			if len(args) == len(target.Params) {
+				boxed := make([]Val, len(args))
+				for i, a := range args {
+					boxed[i] = e.boxInst(target.Params[i].Type(), a)
+				}
+				args = boxed
+			}
 		}
 		c := e.contracts[name]
 		if c != nil && !c.Inline && len(st.frames) > 0 && name != e.curFn {
